@@ -182,7 +182,7 @@ StepOK(pre, ev, post) ==
           /\ (C01_Positive(pre, ev, post, p) \/ SwapClassOn(pre, ev, p) = "KF-1")
           /\ (C03_Share(pre, post, p) \/ SwapClassOn(pre, ev, p) = "KF-1")
           /\ C06_Swap(pre, ev, p)
-    /\ C02_Settle(pre, ev, post)
+    /\ C02_Settle(pre, ev, post) /\ C02_Declared(pre, ev, post)
     /\ C04_Withdraw(pre, ev, post)
     /\ C05_Provide(pre, ev, post)
     /\ C07_ThirdParty(pre, ev, post)
